@@ -90,8 +90,8 @@ func ruleSnapShadow() *Rule {
 func ruleBoundaryMono() *Rule {
 	const id = "BOUNDARY-MONO"
 	return &Rule{
-		ID: id,
-		Text: "In takeSnapshot every store to Raft.lastIncludedIndex writes a value V on a path on which, in the same critical section, V > r.lastIncludedIndex has been established (the arm of a comparison of that very value with the boundary).",
+		ID:    id,
+		Text:  "In takeSnapshot every store to Raft.lastIncludedIndex writes a value V on a path on which, in the same critical section, V > r.lastIncludedIndex has been established (the arm of a comparison of that very value with the boundary).",
 		Floor: 1,
 		Run: func(p *Program) []Obligation {
 			fn := p.Func("(*Raft).takeSnapshot")
